@@ -211,7 +211,8 @@ def main(argv):
             if os.path.exists(meta):
                 with open(meta) as f:
                     m = json.load(f)
-                jobs.append((name, m["property"], os.path.join(base, name, "patch.diff"), m.get("tier", "quick")))
+                tag = "outofscope:" if m.get("detected_by", {}).get("not_claimed_because") else ""
+                jobs.append((tag + name, m["property"], os.path.join(base, name, "patch.diff"), m.get("tier", "quick")))
     else:
         want = [a for a in argv if not a.startswith("-")]
         jobs = [(m[0], m[1], m, "quick") for m in MUTANTS if not want or m[0] in want]
@@ -226,6 +227,11 @@ def main(argv):
             rc, lines, wall, tail = run_check(prop, os.path.join(d, "src"), d, tier)
             detected = rc == 1
             benign = name.startswith("benign:")
+            if name.startswith("outofscope:"):
+                # a change that only misbehaves outside what the property quantifies over (see its meta.json): whatever
+                # the check says is recorded, nothing is expected
+                print("%-28s %s rc=%d %5.1fs %s" % (name, prop, rc, wall, "NOT-CLAIMED (outside the property's quantifier)"))
+                continue
             ok = ok and (rc == 0 if benign else detected)
             clause = [l.strip() for l in lines if l.startswith("  clause")][:1]
             verdict = ("QUIET" if rc == 0 else "FALSE-ALARM" if rc == 1 else "HARNESS-ERROR") if benign else ("DETECTED" if detected else "MISSED")
